@@ -50,6 +50,7 @@ Record orun := {
 Record oconc := {
   cc_cfgs : list config;
   cc_eff : list nat;                        (* the instance of every granted statement, in order *)
+  cc_evs : list sev;                        (* the same sequence with the statements that were made to fail *)
   cc_log : list (nat * ocall);
   cc_errs : list bool;
   cc_done : list bool;                      (* per instance: its Rotate returned (crashed instances stop where the schedule ends) *)
@@ -132,11 +133,15 @@ Definition conc_as_run (o : oconc) : orun :=
      r_fault := None; r_kind := KDirect; r_parse := []; r_log := []; r_err := false;
      r_ttl := cc_ttl o; r_policy := cc_policy o; r_settings := cc_settings o |}.
 Definition conc_matches (d : db) (o : oconc) : bool * db :=
-  let s := sched_run (cc_eff o) (init_sys d (cc_cfgs o)) in
+  let fs := fsched_run (cc_evs o) (finit d (cc_cfgs o)) in
+  let s := f_sys fs in
+  let n := List.length (cc_cfgs o) in
   (list_eqb (fun a b => Nat.eqb (fst a) (fst b) && ocall_eqb (snd a) (snd b))
-            (map (render_conc (cc_cfgs o)) (rev (s_log s))) (cc_log o) &&
-   list_eqb Bool.eqb (map done (s_insts s)) (cc_done o) &&
-   forallb negb (cc_errs o) && Nat.eqb (List.length (cc_errs o)) (List.length (cc_cfgs o)) &&
+            (map (render_fconc (cc_cfgs o)) (rev (f_log fs))) (cc_log o) &&
+   (* an instance's Rotate has returned when it is done or its statement failed; it reports an error exactly then *)
+   list_eqb Bool.eqb (map (fun k => done (nth k (s_insts s) (start (nth 0 (cc_cfgs o) (i_cfg (start {| cluster := ""; distributed := false; days := []; drop_days := 0; storage_policy := "" |}))))) || is_dead (f_dead fs) k) (seq 0 n)) (cc_done o) &&
+   list_eqb Bool.eqb (map (is_dead (f_dead fs)) (seq 0 n)) (cc_errs o) &&
+   list_eqb Nat.eqb (map sev_inst (cc_evs o)) (cc_eff o) &&
    state_eqb (s_db s) (conc_as_run o), s_db s).
 
 (* every database with a name of its own starts fresh *)
@@ -434,11 +439,15 @@ Definition conc_ok (start_consistent : bool) (o : oconc) : bool :=
   forallb (fun e => match nth_error (cc_cfgs o) (fst e) with Some c => tier_cfg_obs c (snd e) | None => false end) (cc_log o) &&
   forallb (fun k => record_after_all_obs [] (map snd (filter (fun e => Nat.eqb (fst e) k) (cc_log o))))
           (seq 0 (List.length (cc_cfgs o))) &&
-  forallb negb (cc_errs o) &&
+  (* an instance reports an error exactly when one of its statements failed, and that statement is its last *)
+  forallb (fun k => let own := map snd (filter (fun e => Nat.eqb (fst e) k) (cc_log o)) in
+                    Bool.eqb (nth k (cc_errs o) false) (existsb (fun c => negb (o_ok c)) own) &&
+                    forallb o_ok (removelast own))
+          (seq 0 (List.length (cc_cfgs o))) &&
   match cc_cfgs o with
   | [] => true
   | c :: r => negb (forallb (config_eqb c) r) || negb start_consistent || negb (forallb (fun x => x) (cc_done o)) ||
-              applied_b c (obs_db (conc_as_run o))
+              existsb (fun x => x) (cc_errs o) || applied_b c (obs_db (conc_as_run o))
   end.
 Definition spec_violation (c : case) : bool :=
   let sc := consistent_b (init_db c) in
